@@ -55,6 +55,7 @@ namespace vf
         long long transitions = 0, inapplicable = 0, viol_transitions = 0;
         int depth_reached = 0;
         bool complete = true;
+        bool state_cap_hit = false;
         std::map<std::string, std::pair<long long, long long>> per_kind;   // kind -> (transitions, state-changing)
 
         void add_op(const std::string& kind, const std::string& name, std::function<bool(World&, Errs&)> f)
@@ -152,7 +153,7 @@ namespace vf
                     if ((long long)worlds.size() >= max_states)
                     {
                         // still count/judge the transition, but do not grow the table
-                        if (index.find(w.key()) == index.end()) complete = false;
+                        if (index.find(w.key()) == index.end()) { complete = false; state_cap_hit = true; }
                         continue;
                     }
                     bool fresh;
@@ -246,6 +247,7 @@ namespace vf
             note(prop + "/" + inst + ": states=" + str(worlds.size()) + " transitions=" + str(transitions) + " depth=" + str(depth_reached) +
                  (complete ? " FIXPOINT (frontier empty)" : " BOUNDED (depth/state/time cap)") + " ops=" + str(ops.size()) +
                  " per-kind transitions/state-changing: " + kinds);
+            if (state_cap_hit) cap(prop + "/" + inst + ": state cap " + str(max_states) + " reached; successors beyond it were judged but not expanded");
             if (!complete && fixpoint_expected) cap(prop + "/" + inst + ": search did not reach fixpoint (bounded)");
             // a sample trace: the deepest state
             if (!worlds.empty())
